@@ -929,32 +929,14 @@ Proof. intro H. unfold last_index_split. rewrite (split_on_none c s [] H). refle
 
 (* ---- includes ---- *)
 
-Lemma thrift_no_dot : no_byte dot (B "thrift") = true.
-Proof. vm_compute. reflexivity. Qed.
-Lemma thrift_suffix_eq : s_thrift_suffix = dot :: B "thrift".
-Proof. vm_compute. reflexivity. Qed.
-
-(* for a base name that ends in .thrift the key of the include map is the IDL prefix *)
-Lemma alias_is_prefix b :
-  is_prefix (rev s_thrift_suffix) (rev b) = true ->
-  trim_suffix b s_thrift_suffix = match last_index_split dot b with Some (stem, _) => stem | None => b end.
-Proof.
-  intro H. unfold trim_suffix. rewrite H. apply is_prefix_spec in H as [r Hr].
-  assert (Eb : b = rev r ++ s_thrift_suffix).
-  { rewrite <- (rev_involutive b), Hr, rev_app_distr, rev_involutive. reflexivity. }
-  rewrite Eb at 2 3. rewrite thrift_suffix_eq, (last_index_split_last dot (rev r) (B "thrift") thrift_no_dot).
-  rewrite Eb, app_length, Nat.add_sub. rewrite firstn_app, Nat.sub_diag, firstn_all. cbn [firstn]. apply app_nil_r.
-Qed.
-
 Lemma include_alias_prefix i :
   match in_ref i with
-  | Some p => beqb (base_name (in_path i)) (base_name p) && is_prefix (rev s_thrift_suffix) (rev (base_name p))
+  | Some p => beqb (base_name (in_path i)) (base_name p)
   | None => false end = true ->
   include_alias (include_path i) = idl_prefix (in_path i).
 Proof.
-  unfold include_path. destruct (in_ref i) as [p|]; [|discriminate]. intro H.
-  apply andb_true_iff in H as [Hb Hs]. apply beqb_true in Hb.
-  unfold include_alias, idl_prefix. rewrite Hb. apply alias_is_prefix. exact Hs.
+  unfold include_path. destruct (in_ref i) as [p|]; [|discriminate]. intro Hb. apply beqb_true in Hb.
+  unfold include_alias, idl_prefix. rewrite Hb. reflexivity.
 Qed.
 
 Theorem includes_faithful f :
@@ -1576,3 +1558,164 @@ Lemma ex_hypotheses :
   file_annos_ok ex_api = true /\ distinct_basenames ex_api = true /\ includes_plain ex_api = true /\
   prog_ok ex_program = true /\ wfb (enc_fdesc (descriptor_of ex_api)) = true /\ fdesc_ok (descriptor_of ex_api) = true.
 Proof. vm_compute. repeat split. Qed.
+
+(* ================================================================ 7. the descriptor holds nothing else *)
+
+(* the descriptor rebuilt from the facts alone *)
+Fixpoint tdesc_of_tyx (p : bytes) (t : tyx) : tdesc :=
+  match t with
+  | TyX n k v => TDesc p n (match k with Some x => Some (tdesc_of_tyx p x) | None => None end)
+                       (match v with Some x => Some (tdesc_of_tyx p x) | None => None end) None
+  end.
+Fixpoint cvdesc_of_cvx (c : cvx) : cvdesc :=
+  match c with
+  | XDouble b => cvd_plain CVT_DOUBLE b 0 [] false []
+  | XInt z => cvd_plain CVT_INT 0 z [] false []
+  | XString s => cvd_plain CVT_STRING 0 0 s false []
+  | XBool b => cvd_plain CVT_BOOL 0 0 [] b []
+  | XIdent s => cvd_plain CVT_IDENTIFIER 0 0 [] false s
+  | XList l => CVD CVT_LIST 0 0 [] false
+                   (Some ((fix go (l : list cvx) : list cvdesc := match l with [] => [] | x :: r => cvdesc_of_cvx x :: go r end) l))
+                   None [] None
+  | XMap l => CVD CVT_MAP 0 0 [] false None
+                  (Some ((fix go (l : list (cvx * cvx)) : list (cvdesc * cvdesc) :=
+                            match l with [] => [] | (k, v) :: r => (cvdesc_of_cvx k, cvdesc_of_cvx v) :: go r end) l))
+                  [] None
+  end.
+Definition fielddesc_of_x (p : bytes) (f : fieldx) : fielddesc :=
+  FieldD p (fx_name f) (tdesc_of_tyx p (fx_type f)) (match fx_req f with Some r => req_string r | None => [] end) (fx_id f)
+         (omap cvdesc_of_cvx (fx_default f)) (fx_annos f) (fx_comments f) None.
+Definition structdesc_of_x (p : bytes) (s : structx) : structdesc :=
+  StructD p (sx_name s) (map (fielddesc_of_x p) (sx_fields s)) (sx_annos s) (sx_comments s) None.
+Definition enumdesc_of_x (p : bytes) (e : enumx) : enumdesc :=
+  EnumD p (ex_name' e) (map (fun v => EnumValueD p (evx_name v) (evx_number v) (evx_annos v) (evx_comments v) None) (ex_values e))
+        (ex_annos e) (ex_comments e) None.
+Definition typedefdesc_of_x (p : bytes) (t : typedefx) : typedefdesc :=
+  TypedefD p (tdesc_of_tyx p (tx_type t)) (tx_alias t) (tx_annos t) (tx_comments t) None.
+Definition methoddesc_of_x (p : bytes) (m : methodx) : methoddesc :=
+  MethodD p (mx_name m) (omap (tdesc_of_tyx p) (mx_response m)) (map (fielddesc_of_x p) (mx_args m)) (mx_annos m)
+          (mx_comments m) (map (fielddesc_of_x p) (mx_throws m)) (mx_oneway m) None.
+Definition servicedesc_of_x (p : bytes) (s : servicex) : servicedesc :=
+  ServiceD p (svx_name s) (map (methoddesc_of_x p) (svx_methods s)) (svx_annos s) (svx_comments s) None (svx_base s).
+Definition constdesc_of_x (p : bytes) (c : constx) : constdesc :=
+  ConstD p (cx_name c) (tdesc_of_tyx p (cx_type c)) (cvdesc_of_cvx (cx_value c)) (cx_annos c) (cx_comments c) None.
+Definition fdesc_of_facts (x : filex) : fdesc :=
+  let p := x_path x in
+  FileD p (x_includes x) (x_namespaces x) (map (servicedesc_of_x p) (x_services x)) (map (structdesc_of_x p) (x_structs x))
+        (map (structdesc_of_x p) (x_exceptions x)) (map (enumdesc_of_x p) (x_enums x)) (map (typedefdesc_of_x p) (x_typedefs x))
+        (map (structdesc_of_x p) (x_unions x)) (map (constdesc_of_x p) (x_consts x)) None.
+
+Lemma tdesc_of_tyx_ty p : forall t, tdesc_of_tyx p (tyx_of_ty t) = type_desc p t.
+Proof.
+  induction t as [n k v c an cat r td IHk IHv] using ty_ind'. cbn [tyx_of_ty tdesc_of_tyx type_desc].
+  destruct k as [x|]; destruct v as [y|]; rewrite ?(IHk _ eq_refl), ?(IHv _ eq_refl); reflexivity.
+Qed.
+
+Lemma cvdesc_of_cvx_list_eq l :
+  (fix go (l : list cvx) : list cvdesc := match l with [] => [] | x :: r => cvdesc_of_cvx x :: go r end) l = map cvdesc_of_cvx l.
+Proof. induction l as [|x r IH]; [reflexivity|]. cbn [map]. rewrite <- IH. reflexivity. Qed.
+Lemma cvdesc_of_cvx_map_eq l :
+  (fix go (l : list (cvx * cvx)) : list (cvdesc * cvdesc) :=
+     match l with [] => [] | (k, v) :: r => (cvdesc_of_cvx k, cvdesc_of_cvx v) :: go r end) l =
+  map (fun kv => (cvdesc_of_cvx (fst kv), cvdesc_of_cvx (snd kv))) l.
+Proof. induction l as [|[k v] r IH]; [reflexivity|]. cbn [map fst snd]. rewrite <- IH. reflexivity. Qed.
+
+Lemma cvdesc_of_cvx_cv : forall c, cvdesc_of_cvx (cvx_of_cv c) = cv_desc c.
+Proof.
+  induction c as [b|z|s|s e|l IH|l IH] using const_value_ind'; cbn [cvx_of_cv cv_desc]; try reflexivity.
+  - destruct (beqb s s_false); [reflexivity|]. destruct (beqb s s_true); reflexivity.
+  - rewrite cvx_of_cv_list_eq, cv_desc_list_eq. cbn [cvdesc_of_cvx]. rewrite cvdesc_of_cvx_list_eq, map_map. do 2 f_equal.
+    induction IH as [|x r Hx _ IHr]; [reflexivity|]. cbn [map]. rewrite Hx, IHr. reflexivity.
+  - rewrite cvx_of_cv_map_eq, cv_desc_map_eq. cbn [cvdesc_of_cvx]. rewrite cvdesc_of_cvx_map_eq, map_map. do 2 f_equal.
+    induction IH as [|[k v] r [Hk Hv] _ IHr]; [reflexivity|]. cbn [map fst snd] in *. rewrite Hk, Hv, IHr. reflexivity.
+Qed.
+
+Lemma fielddesc_of_x_field p f : field_annos_ok f = true -> fielddesc_of_x p (fieldx_of f) = field_desc p f.
+Proof.
+  unfold field_annos_ok. intro H. unfold fielddesc_of_x, fieldx_of, field_desc.
+  cbn [fx_name fx_id fx_req fx_type fx_default fx_annos fx_comments].
+  rewrite tdesc_of_tyx_ty, <- annos_map_faithful by exact H.
+  destruct (fd_default f); cbn [omap]; [rewrite cvdesc_of_cvx_cv|]; reflexivity.
+Qed.
+
+Lemma fields_of_x p l : forallb field_annos_ok l = true -> map (fielddesc_of_x p) (map fieldx_of l) = map (field_desc p) l.
+Proof. intro H. apply map_map_in. intros x Hx. apply fielddesc_of_x_field. rewrite forallb_forall in H. apply H. exact Hx. Qed.
+
+Lemma structdesc_of_x_struct p s :
+  annos_ok (sl_annos s) && forallb field_annos_ok (sl_fields s) = true -> structdesc_of_x p (structx_of s) = struct_desc p s.
+Proof.
+  intro H. apply andb_true_iff in H as [Ha Hf]. unfold structdesc_of_x, structx_of, struct_desc.
+  cbn [sx_name sx_fields sx_annos sx_comments]. rewrite fields_of_x, <- annos_map_faithful by assumption. reflexivity.
+Qed.
+
+Lemma enumdesc_of_x_enum p e :
+  annos_ok (en_annos e) && forallb (fun v => annos_ok (ev_annos v)) (en_values e) = true -> enumdesc_of_x p (enumx_of e) = enum_desc p e.
+Proof.
+  intro H. apply andb_true_iff in H as [Ha Hv]. unfold enumdesc_of_x, enumx_of, enum_desc.
+  cbn [ex_name' ex_values ex_annos ex_comments]. rewrite <- annos_map_faithful by exact Ha. f_equal.
+  apply map_map_in. intros v Hin. unfold enumvaluex_of, enum_value_desc. cbn [evx_name evx_number evx_annos evx_comments].
+  rewrite <- annos_map_faithful; [reflexivity|]. rewrite forallb_forall in Hv. apply Hv. exact Hin.
+Qed.
+
+Lemma typedefdesc_of_x_typedef p t : annos_ok (td_annos t) = true -> typedefdesc_of_x p (typedefx_of t) = typedef_desc p t.
+Proof.
+  intro H. unfold typedefdesc_of_x, typedefx_of, typedef_desc. cbn [tx_alias tx_type tx_annos tx_comments].
+  rewrite tdesc_of_tyx_ty, <- annos_map_faithful by exact H. reflexivity.
+Qed.
+
+Lemma methoddesc_of_x_method p fn :
+  annos_ok (fn_annos fn) && forallb field_annos_ok (fn_args fn) && forallb field_annos_ok (fn_throws fn) = true ->
+  methoddesc_of_x p (methodx_of fn) = method_desc p fn.
+Proof.
+  intro H. apply andb_true_iff in H as [H Ht]. apply andb_true_iff in H as [Ha Hg].
+  unfold methoddesc_of_x, methodx_of, method_desc. cbn [mx_name mx_response mx_args mx_throws mx_oneway mx_annos mx_comments omap].
+  rewrite tdesc_of_tyx_ty, !fields_of_x, <- annos_map_faithful by assumption. reflexivity.
+Qed.
+
+Lemma servicedesc_of_x_service p s :
+  annos_ok (sv_annos s) &&
+  forallb (fun fn => annos_ok (fn_annos fn) && forallb field_annos_ok (fn_args fn) && forallb field_annos_ok (fn_throws fn)) (sv_functions s) = true ->
+  servicedesc_of_x p (servicex_of s) = service_desc p s.
+Proof.
+  intro H. apply andb_true_iff in H as [Ha Hf]. unfold servicedesc_of_x, servicex_of, service_desc.
+  cbn [svx_name svx_base svx_methods svx_annos svx_comments]. rewrite <- annos_map_faithful by exact Ha. f_equal.
+  apply map_map_in. intros fn Hin. apply methoddesc_of_x_method. rewrite forallb_forall in Hf. apply Hf. exact Hin.
+Qed.
+
+Lemma constdesc_of_x_const p c : annos_ok (co_annos c) = true -> constdesc_of_x p (constx_of c) = const_desc p c.
+Proof.
+  intro H. unfold constdesc_of_x, constx_of, const_desc. cbn [cx_name cx_type cx_value cx_annos cx_comments].
+  rewrite tdesc_of_tyx_ty, cvdesc_of_cvx_cv, <- annos_map_faithful by exact H. reflexivity.
+Qed.
+
+(* the descriptor is a function of the facts: it holds nothing the property does not name (the
+   Filepath copies in every node repeat the file's path) *)
+Theorem descriptor_from_facts f :
+  file_annos_ok f = true -> distinct_basenames f = true -> includes_plain f = true ->
+  descriptor_of f = fdesc_of_facts (project_a f).
+Proof.
+  intros Ha Hd Hp. unfold file_annos_ok in Ha.
+  apply andb_true_iff in Ha as [H Hsv]. apply andb_true_iff in H as [H Hco]. apply andb_true_iff in H as [H Htd].
+  apply andb_true_iff in H as [Hsl Hen].
+  unfold struct_likes in Hsl. rewrite !forallb_app in Hsl. apply andb_true_iff in Hsl as [Hs Hsl]. apply andb_true_iff in Hsl as [Hu He].
+  unfold fdesc_of_facts, project_a, descriptor_of.
+  cbn [x_path x_includes x_namespaces x_structs x_unions x_exceptions x_enums x_typedefs x_services x_consts].
+  rewrite (includes_faithful f Hd Hp), namespaces_faithful.
+  f_equal; symmetry; apply map_map_in; intros y Hin.
+  - apply servicedesc_of_x_service. rewrite forallb_forall in Hsv. apply Hsv. exact Hin.
+  - apply structdesc_of_x_struct. rewrite forallb_forall in Hs. apply Hs. exact Hin.
+  - apply structdesc_of_x_struct. rewrite forallb_forall in He. apply He. exact Hin.
+  - apply enumdesc_of_x_enum. rewrite forallb_forall in Hen. apply Hen. exact Hin.
+  - apply typedefdesc_of_x_typedef. rewrite forallb_forall in Htd. apply Htd. exact Hin.
+  - apply structdesc_of_x_struct. rewrite forallb_forall in Hu. apply Hu. exact Hin.
+  - apply constdesc_of_x_const. rewrite forallb_forall in Hco. apply Hco. exact Hin.
+Qed.
+
+Corollary descriptor_determined_by_projection f g :
+  file_annos_ok f = true -> distinct_basenames f = true -> includes_plain f = true ->
+  file_annos_ok g = true -> distinct_basenames g = true -> includes_plain g = true ->
+  project_a f = project_a g -> descriptor_of f = descriptor_of g.
+Proof.
+  intros Hf1 Hf2 Hf3 Hg1 Hg2 Hg3 E.
+  rewrite (descriptor_from_facts f Hf1 Hf2 Hf3), (descriptor_from_facts g Hg1 Hg2 Hg3), E. reflexivity.
+Qed.
